@@ -695,3 +695,51 @@ Theorem combining_split_current :
   forallb (span_ok comb_r) (toks (run comb_r acts)) = true.
 Proof. vm_compute. repeat split. Qed.
 
+
+(** * end_loc is compositional: the law behind Formatter::push *)
+Lemma last_line_app_nl s t : filter is_nl t <> [] -> last_line (s ++ t) = last_line t.
+Proof.
+  induction t as [|c t IH] using rev_ind; intros H; [exfalso; apply H; reflexivity|].
+  rewrite app_assoc, !last_line_snoc. destruct (is_nl c) eqn:E; [reflexivity|].
+  rewrite IH; [reflexivity|]. intros Z. apply H. rewrite filter_app, Z. cbn [filter]. rewrite E. reflexivity.
+Qed.
+
+(** the column after [s ++ t] RESTARTS after the last line break of [t]; only when [t] has no
+    line break do the columns add up *)
+Theorem out_true_col_app s t :
+  out_true_col (s ++ t) = if existsb is_nl t then out_true_col t else out_true_col s + out_true_col t.
+Proof.
+  unfold out_true_col. destruct (existsb is_nl t) eqn:E.
+  - rewrite last_line_app_nl; [reflexivity|]. intros Z. apply existsb_exists in E. destruct E as (x & Hx & Hn).
+    assert (In x (filter is_nl t)) by (apply filter_In; auto). rewrite Z in H. destruct H.
+  - assert (Z : filter is_nl t = []).
+    { induction t as [|c t IH]; [reflexivity|]. cbn [existsb] in E. apply orb_false_iff in E. destruct E as [Ec Et].
+      cbn [filter]. rewrite Ec. auto. }
+    rewrite (last_line_app_nonl s t Z), nlen_app. f_equal.
+    pose proof (last_line_app_nonl [] t Z) as L. rewrite last_line_eq in L at 2. cbn in L. cbn [app] in L. rewrite L. reflexivity.
+Qed.
+
+Theorem end_loc_app s t :
+  nlen (filter is_nl (s ++ t)) <= U16MAX -> nlen (s ++ t) <= U32MAX -> seg_len (s ++ t) <= U32MAX ->
+  line (end_loc true (s ++ t)) = line (end_loc true s) + line (end_loc true t) /\
+  char_pos (end_loc true (s ++ t)) = char_pos (end_loc true s) + char_pos (end_loc true t) /\
+  byte_pos (end_loc true (s ++ t)) = byte_pos (end_loc true s) + byte_pos (end_loc true t) /\
+  col (end_loc true (s ++ t)) =
+    N.min (if existsb is_nl t then out_true_col t else out_true_col s + out_true_col t) U16MAX.
+Proof.
+  intros Hl Hc Hb. rewrite filter_app, nlen_app in Hl. rewrite nlen_app in Hc.
+  assert (Hs : seg_len (s ++ t) = seg_len s + seg_len t).
+  { unfold seg_len. induction s as [|c s IH]; cbn [app fold_right]; [lia|]. rewrite IH. lia. }
+  rewrite Hs in Hb.
+  destruct (end_loc_others_exact true (s ++ t)) as (A1 & A2 & A3); [rewrite filter_app, nlen_app; lia | rewrite nlen_app; lia | lia|].
+  destruct (end_loc_others_exact true s) as (B1 & B2 & B3); [lia | lia | lia|].
+  destruct (end_loc_others_exact true t) as (C1 & C2 & C3); [lia | lia | lia|].
+  rewrite A1, A2, A3, B1, B2, B3, C1, C2, C3, filter_app, !nlen_app, Hs.
+  repeat split. unfold end_loc. cbn [col]. rewrite out_true_col_app. reflexivity.
+Qed.
+
+(** adding the columns field by field (as one could be tempted to do in Formatter::push) is not
+    this law: "aa" followed by "a", line break, "a" ends at column 1, not 3 *)
+Theorem push_additive_col_refuted :
+  exists s t, col (end_loc true (s ++ t)) <> N.min (col (end_loc true s) + col (end_loc true t)) U16MAX.
+Proof. exists [(1, COther); (1, COther)], [(1, COther); (1, CNl); (1, COther)]. vm_compute. discriminate. Qed.
